@@ -536,6 +536,11 @@ class RunLengthArray(NPSIndexable, np.lib.mixins.NDArrayOperatorsMixin):
         start_idx = np.searchsorted(self._events, start, side="right")-1
         end_idx = np.searchsorted(self._events, end, side="left")
         if isinstance(start_idx, np.ndarray):
+            # an empty window holds no run (inside a run the two look-ups above differ by one)
+            end_idx = np.where(end <= start, start_idx, end_idx)
+        elif end <= start:
+            end_idx = start_idx
+        if isinstance(start_idx, np.ndarray):
             values = ragged_slice(self._values, start_idx, end_idx)
         else:
             values = self._values[start_idx:end_idx]
